@@ -11,19 +11,90 @@ CLASSNAME = {"eq": "Eq", "noteq": "NotEq", "gt": "Gt", "ge": "Ge", "lt": "Lt", "
              "notcontains": "NotContains"}
 NAME_OF_CLASS = {v: k for k, v in CLASSNAME.items()}
 
+# --- model-backed facet and text indexes (`e2e` catalogs: C04's `applye2e` composes the C13 / C03 index models) ---
+# configured facets; the dictionary of leaf values (two names are not configured); the dictionary of document
+# values (the last two paths match no configured facet: such a document is not known to the index)
+FACETS = ["k0", "k0:a", "k0:a:b", "k1", "k1:a", "k2"]
+FACET_NAMES = FACETS + ["k3", "k1:b"]
+FACET_PATHS = ["k0", "k0:a", "k0:a:b", "k0:c", "k1:a:x", "k1", "k2:z", "k3", "q:k0"]
+FACET_MATCHED = 7
+SEGMENTS = {"k0": 0, "k1": 1, "k2": 2, "k3": 3, "a": 10, "b": 11, "c": 12, "x": 13, "z": 14, "q": 15}
+# the dictionary of text leaf values: query STRINGS of the text query language (the first len(WORDS) are the
+# single words); every one is accepted by the parser
+QUERIES = WORDS + ['"apple berry"', "cherry AND NOT date", "(fig OR grape) AND elder", "ha*", "berry cherry",
+                   "apple -berry", 'Date OR "elder fig"', "gr?pe or hazel", "the apple", "fig AND cherry",
+                   '"cherry date elder"', "(apple OR berry) AND NOT (cherry OR date)"]
+NVALS = {"field": 10, "keyword": 6, "facet": 6, "text": len(WORDS)}
+NVALS_E2E = {"field": 10, "keyword": 6, "facet": len(FACET_NAMES), "text": len(QUERIES)}
+NDOCVALS_E2E = {"keyword": 6, "facet": len(FACET_PATHS), "text": len(WORDS)}
+
+
+def facet_tok(f):
+    return ".".join(str(SEGMENTS[s]) for s in f.split(":"))
+
+
+def enc(s):
+    return "u" + ".".join("%x" % ord(c) for c in s)
+
+
+_TEXT_CFG = None
+
+
+def text_cfg():
+    """lexicon configuration lines of the default TextIndex lexicon (Splitter, CaseNormalizer, StopWordRemover)
+    for the alphabet of WORDS/QUERIES, computed from CPython like the `text` session's"""
+    global _TEXT_CFG
+    if _TEXT_CFG is None:
+        import re
+        import sys
+        from props import c15
+        chars = sorted(set("".join(WORDS + QUERIES)) | set("".join(WORDS + QUERIES).upper())
+                       | set("".join(WORDS + QUERIES).lower()))
+        spaces = [c for c in range(sys.maxunicode + 1) if re.match(r"\s", chr(c))]
+        _TEXT_CFG = c15.table_cfg(chars) + [["cfg", "stop"] + [enc(w) for w in c15.stops()],
+                                            ["cfg", "pipeline", "splitter", "case", "stop"],
+                                            ["cfg", "space"] + ["%x" % c for c in spaces]]
+    return [list(c) for c in _TEXT_CFG]
+
+
+def doc_values(rng, k, total, e2e):
+    """the value tokens of one `doc` line for an index of kind k"""
+    if k == "field":
+        return [rng.randrange(10)]
+    if k == "text":
+        n = rng.randrange(1, 5) if total else rng.randrange(0, 5)
+        return [rng.randrange(len(WORDS)) for _ in range(n)]
+    if k == "facet" and e2e:
+        hi = FACET_MATCHED if total or rng.random() < 0.8 else len(FACET_PATHS)
+        return sorted(set(rng.randrange(hi) for _ in range(rng.randrange(1, 4))))
+    return sorted(set(rng.randrange(6) for _ in range(rng.randrange(1, 4))))
+
 
 class Doc(object):
     pass
 
 
-def gen_catalog(rng, total, kinds=None):
-    """cfg + doc lines.  total=True: every document has a (non-empty) value in every index."""
+def gen_catalog(rng, total, kinds=None, e2e=False):
+    """cfg + doc lines.  total=True: every document has a (non-empty) value in every index.
+    e2e=True: facet and text indexes are model-backed in the driver (hierarchical facets, query strings)."""
     nidx = rng.randrange(1, 5)
     if kinds is None:
         kinds = [rng.choice(["field", "field", "keyword", "facet", "text"]) for _ in range(nidx)]
     cfg = [["cfg", "family", 64]]
+    if e2e:
+        cfg.append(["cfg", "e2e", 1])
+        if "text" in kinds:
+            cfg += text_cfg()
     for k in kinds:
-        cfg.append(["cfg", "index", "keyword" if k == "facet" else k])
+        if e2e and k == "facet":
+            cfg += [["cfg", "index", "facet"], ["cfg", "dict", "facets"] + [facet_tok(f) for f in FACETS],
+                    ["cfg", "dict", "names"] + [facet_tok(f) for f in FACET_NAMES],
+                    ["cfg", "dict", "paths"] + [facet_tok(f) for f in FACET_PATHS]]
+        elif e2e and k == "text":
+            cfg += [["cfg", "index", "textm"], ["cfg", "dict", "words"] + [enc(w) for w in WORDS],
+                    ["cfg", "dict", "queries"] + [enc(q) for q in QUERIES]]
+        else:
+            cfg.append(["cfg", "index", "keyword" if k == "facet" else k])
     ndocs = rng.choice([0, 1, 2, 3, 5, 8, 12, 25])
     docs = []
     ids = rng.sample(range(40), ndocs)
@@ -33,22 +104,16 @@ def gen_catalog(rng, total, kinds=None):
                 if rng.random() < 0.5:
                     docs.append(["doc", i, d, "none"])
                 continue        # else: not known to this index at all
-            if k == "field":
-                docs.append(["doc", i, d, rng.randrange(10)])
-            elif k == "text":
-                n = rng.randrange(1, 5) if total else rng.randrange(0, 5)
-                docs.append(["doc", i, d] + [rng.randrange(len(WORDS)) for _ in range(n)])
-            else:
-                docs.append(["doc", i, d] + sorted(set(rng.randrange(6) for _ in range(rng.randrange(1, 4)))))
+            docs.append(["doc", i, d] + doc_values(rng, k, total, e2e))
     return kinds, cfg, docs
 
 
-def gen_leaf(rng, kinds, admissible_p=0.93):
+def gen_leaf(rng, kinds, admissible_p=0.93, e2e=False):
     i = rng.randrange(len(kinds))
     k = kinds[i]
     pool = {"field": FIELD_CMPS, "keyword": KW_CMPS, "facet": KW_CMPS, "text": TEXT_CMPS}[k]
     c = rng.choice(pool) if rng.random() < admissible_p else rng.choice(ALL_CMPS + ["inrange"])
-    nvals = {"field": 10, "keyword": 6, "facet": 6, "text": len(WORDS)}[k]
+    nvals = (NVALS_E2E if e2e else NVALS)[k]
     if c in ("inrange", "notinrange"):
         return ["range", 1 if c == "notinrange" else 0, i, rng.randrange(nvals), rng.randrange(nvals),
                 rng.randrange(2), rng.randrange(2)]
@@ -58,19 +123,19 @@ def gen_leaf(rng, kinds, admissible_p=0.93):
     return ["cmp", c, i, "one", rng.randrange(nvals)]
 
 
-def gen_tree(rng, kinds, depth, range_bias=0.0, allow_not=True):
+def gen_tree(rng, kinds, depth, range_bias=0.0, allow_not=True, e2e=False):
     r = rng.random()
     if depth <= 0 or r < 0.3:
         if rng.random() < range_bias:
             fi = [i for i, k in enumerate(kinds) if k == "field"]
             if fi:
                 return ["cmp", rng.choice(["gt", "ge", "lt", "le"]), rng.choice(fi), "one", rng.randrange(10)]
-        return gen_leaf(rng, kinds)
+        return gen_leaf(rng, kinds, e2e=e2e)
     if allow_not and r < 0.42:
-        return ["not", gen_tree(rng, kinds, depth - 1, range_bias, allow_not)]
+        return ["not", gen_tree(rng, kinds, depth - 1, range_bias, allow_not, e2e)]
     op = "and" if r < 0.72 else "or"
     n = rng.choice([1, 2, 2, 2, 3, 3, 4])
-    kids = [gen_tree(rng, kinds, depth - 1, range_bias, allow_not) for _ in range(n)]
+    kids = [gen_tree(rng, kinds, depth - 1, range_bias, allow_not, e2e) for _ in range(n)]
     if rng.random() < 0.15 and kids:
         kids.append(kids[0])          # repeated operand
     return [op, kids]
@@ -91,6 +156,7 @@ class Impl(object):
             if c[1] == "family" and c[2] == 32:
                 fam = BTrees.family32
         self.family = fam
+        self.e2e = any(c[1] == "e2e" for c in cfg)
         self.kinds = kinds or [c[2] for c in cfg if c[1] == "index"]
         self.cat = Catalog(family=fam)
         self.idx = []
@@ -101,7 +167,8 @@ class Impl(object):
             elif k == "keyword":
                 ix = KeywordIndex(attr, family=fam)
             elif k == "facet":
-                ix = FacetIndex(attr, facets=["k%d" % j for j in range(6)], family=fam)
+                ix = FacetIndex(attr, facets=list(FACETS) if self.e2e else ["k%d" % j for j in range(6)],
+                                family=fam)
             else:
                 ix = TextIndex(attr, family=fam)
             self.cat["i%d" % i] = ix
@@ -115,6 +182,8 @@ class Impl(object):
             return toks[0]
         if k == "text":
             return " ".join(WORDS[t] for t in toks)
+        if k == "facet" and self.e2e:
+            return [FACET_PATHS[t] for t in toks]
         return ["k%d" % t for t in toks]
 
     def doc(self, c):
@@ -130,7 +199,9 @@ class Impl(object):
         if k == "field":
             return x
         if k == "text":
-            return WORDS[x]
+            return QUERIES[x] if self.e2e else WORDS[x]
+        if k == "facet" and self.e2e:
+            return FACET_NAMES[x]
         return "k%d" % x
 
     def build(self, t):
@@ -154,7 +225,9 @@ class Impl(object):
         if k == "field":
             return i, v
         if k == "text":
-            return i, WORDS.index(v)
+            return i, (QUERIES if self.e2e else WORDS).index(v)
+        if k == "facet" and self.e2e:
+            return i, FACET_NAMES.index(v)
         return i, int(v[1:])
 
     def tokens(self, q):
